@@ -95,6 +95,12 @@ func SelfTestMain(args []string) int {
 		if o.V != nil {
 			rule = o.V.Rule
 		}
+		if os.Getenv("VERIF_DEBUG_PARTS") != "" {
+			c := o.RF.Clone()
+			c.Violation = nil
+			b, _ := json.Marshal(c)
+			fmt.Printf("PARTS callhash=%016x rf=%016x nops=%d\n", o.Hash, rng.HashString(string(b)), o.NOps)
+		}
 		if debugStats && o.Stats != nil {
 			fmt.Printf("probes=%v fired=%v checks=%v calls=%d nops=%d evals=%d cfg=%v\n", o.Stats.Probes, o.Stats.Fired, o.Stats.Checks, o.Stats.StoreCalls, o.NOps, o.Evals, o.RF.Cfg)
 		}
@@ -149,8 +155,16 @@ func SelfTestMain(args []string) int {
 				for _, gp := range procsList {
 					cmd := exec.Command(exe, "selftest", "onerun", "--prop", t.prop, "--gidx", fmt.Sprint(t.gidx), "--seed", fmt.Sprint(*seed))
 					cmd.Env = append(os.Environ(), "GOMAXPROCS="+gp)
-					b, _ := cmd.CombinedOutput()
-					outs = append(outs, strings.TrimSpace(string(b)))
+					b, _ := cmd.Output() // stdout only: engines' own logging (badger's default logger) carries timestamps
+					line := strings.TrimSpace(string(b))
+					if !debugStats {
+						for _, l := range strings.Split(line, "\n") {
+							if strings.HasPrefix(l, "HASH") || l == "SKIP" || strings.HasPrefix(l, "TROUBLE") {
+								line = l
+							}
+						}
+					}
+					outs = append(outs, line)
 				}
 				mu.Lock()
 				defer mu.Unlock()
